@@ -259,6 +259,9 @@ type C10Conn struct {
 	// EOFData: the transport hands over the last bytes together with io.EOF (the peer hung up right after
 	// its last packet)
 	EOFData bool `json:"eof_with_data,omitempty"`
+	// Cut > 0: in a second pass the peer hangs up Cut bytes before the end of its last packet (as counted on the
+	// wire): every complete packet is delivered, then ReadPacket reports an error - never a packet
+	Cut int `json:"cut,omitempty"`
 }
 
 func c10CheckConn(c C10Conn) *pbt.Violation {
@@ -326,6 +329,52 @@ func c10CheckConn(c C10Conn) *pbt.Violation {
 			return v
 		}
 	}
+	if c.Cut > 0 {
+		// sender into a recording sink, receiver from a source that ends early
+		sink := iox.NewSink(-1)
+		cs := mcnet.WrapConn(iox.RWConn{W: sink})
+		cs.SetCipher(CFB8.NewCFB8Encrypt(blk, key), CFB8.NewCFB8Decrypt(blk, key))
+		cs.SetThreshold(c.Threshold)
+		var ends []int
+		for i := range c.Frames {
+			if err := cs.WritePacket(pkts[i]); err != nil {
+				return pbt.V("c10.conn.write", "encrypted connection", "WritePacket #%d into a recording sink: %v", i, err)
+			}
+			ends = append(ends, len(sink.Buf))
+		}
+		total := len(sink.Buf)
+		lastStart := 0
+		if len(ends) > 1 {
+			lastStart = ends[len(ends)-2]
+		}
+		cut := c.Cut
+		if cut > total-lastStart {
+			cut = total - lastStart // the whole last packet is missing except nothing: cut right at its start
+		}
+		src := iox.NewSrc(sink.Buf[:total-cut])
+		if c.Chunk > 0 {
+			src.Plan = []int{c.Chunk}
+		}
+		cr := mcnet.WrapConn(iox.RWConn{R: src})
+		cr.SetCipher(CFB8.NewCFB8Encrypt(blk, key), CFB8.NewCFB8Decrypt(blk, key))
+		cr.SetThreshold(c.Threshold)
+		var p pk.Packet
+		for i, f := range c.Frames[:len(c.Frames)-1] {
+			if err := cr.ReadPacket(&p); err != nil || p.ID != f.ID || !bytes.Equal(p.Data, f.payload()) {
+				return pbt.V("c10.conn.cut.earlier", "every packet intact and in order", "stream cut %d bytes before its end: complete packet #%d: err=%v id %d/%d bytes", cut, i, err, p.ID, len(p.Data))
+			}
+		}
+		var err error
+		if pv, stack := pbt.Try(func() { err = cr.ReadPacket(&p) }); pv != nil {
+			return pbt.V(pbt.PanicKey("c10.conn", stack), "no panic", "ReadPacket on a stream cut %d bytes before its end panicked: %v\n%s", cut, pv, stack)
+		}
+		if err == nil {
+			last := c.Frames[len(c.Frames)-1]
+			return pbt.V("c10.conn.cut.delivered", "delivers every packet intact (a packet whose bytes did not all arrive is not delivered)",
+				"the peer hung up %d bytes before the end of its last packet (%d bytes on the wire, threshold %d): ReadPacket returned id %d with %d bytes (the packet was id %d with %d bytes)",
+				cut, total-lastStart, c.Threshold, p.ID, len(p.Data), last.ID, last.Len)
+		}
+	}
 	for i, f := range c.Frames {
 		if pkts[i].ID != f.ID || !bytes.Equal(pkts[i].Data, f.payload()) {
 			return pbt.V("c10.conn.sender-packet-changed", "delivers every packet intact (a packet that was sent is still the packet: it may be sent again, to this or another connection)",
@@ -347,6 +396,9 @@ var c10Conn = pbt.Register(pbt.Prop[C10Conn]{
 		c.BothWays = rapid.Bool().Draw(t, "both")
 		c.Keep = rapid.Bool().Draw(t, "keep")
 		c.EOFData = rapid.Bool().Draw(t, "eofdata")
+		if rapid.Bool().Draw(t, "cutpass") {
+			c.Cut = rapid.OneOf(rapid.IntRange(1, 8), rapid.IntRange(1, 3000)).Draw(t, "cut")
+		}
 		return c
 	},
 	Check: c10CheckConn,
